@@ -174,6 +174,7 @@ NullSeq ::= SEQUENCE { a INTEGER (0..255), n NULL, b INTEGER (0..255) }
 OptNull ::= SEQUENCE { n NULL OPTIONAL, b INTEGER (0..255) OPTIONAL, c INTEGER (0..255) }
 ChNull ::= CHOICE { n NULL, i INTEGER (0..255) }
 BitsT ::= BIT STRING
+ListNull ::= SEQUENCE { items SEQUENCE OF NULL, x INTEGER (0..255) }
 END"
     );
 
@@ -365,6 +366,7 @@ END";
     zv_struct!(OptNull { n, b, c });
     zv_choice!(ChNull { N = 0, I = 1 });
     zv_tuple!(BitsT);
+    zv_struct!(ListNull { items, x });
     zv_struct!(Nested { ll, x });
     zv_choice!(ChList { L = 0, I = 1 });
 
@@ -480,6 +482,7 @@ END";
                 18 => $f::<BitsT>($($arg),*),
                 19 => $f::<Nested>($($arg),*),
                 20 => $f::<ChList>($($arg),*),
+                21 => $f::<ListNull>($($arg),*),
                 _ => vec![-1],
             }
         };
